@@ -69,7 +69,7 @@ def bounds(tier):
     q = tier == "quick"
     return {
         "log_messages": 3,
-        "script_events": 5 if q else 7,
+        "script_events": 5 if q else 6,
         "auto_commit": [[0, 0], [1, 0], [2, 0], [0, 5000]],
         "processor": ["sync (ok|raise)", "async (ok|fail|pending)"],
         "processor_failures": 1,
@@ -95,7 +95,7 @@ def jobs(tier):
                         "ac": ac,
                         "proc": proc,
                         "stop_on_fail": sof,
-                        "K": 5 if q else 7,
+                        "K": 5 if q else 6,
                         "cfaults": 1 if q else 2,
                         "n": 3,
                     }
